@@ -534,6 +534,9 @@ class NP:
         if any(isobj(rnp.asarray(o)) for o in ops):
             if sub == "ij,ij->j" and len(ops) == 2:
                 return rnp.sum(ops[0] * ops[1], axis=0)
+            if sub.replace(" ", "") == "i,ij,j" and len(ops) == 3:
+                a, M, b = (rnp.asarray(o, dtype=object) for o in ops)
+                return rnp.dot(a, rnp.dot(M, b))
             raise HarnessError(f"einsum {sub} on symbolic arrays")
         return rnp.einsum(sub, *ops, **kw)
 
